@@ -291,6 +291,15 @@ theorem range_more (A : HashAlg H) (hI : Ideal A) (rc : RCfg) (hch : rc.checkHas
     ∃ lastKV, kvs.getLast? = some lastKV ∧ (more = true ↔ GtIn t n lastKV.1) :=
   multi_more hI rc hch hev hlh t n hwf hnz first hfl kvs hkl P more h
 
+/-- The no-proof case (`proof == nil`: the list is claimed to be the WHOLE trie), any variant: if it
+verifies, the trie holds exactly the listed entries (every key: listed value, or absent if not listed)
+and the flag is `false`. -/
+theorem range_all_sound (A : HashAlg H) (hI : Ideal A) (t : Tree H) (n : Nat) (hwf : WF t n)
+    (kvs : List (Path × H)) (hkl : ∀ kv ∈ kvs, kv.1.length = n) (more : Bool)
+    (h : verifyAll A (t.hash A) n kvs = RRes.ok more) :
+    more = false ∧ ∀ k, k.length = n → t.get A k = (lastVal kvs k).getD A.zero :=
+  all_sound hI t n hwf kvs hkl more h
+
 /-- the honest range proof of the sibling keys 110, 111 of the example trie -/
 def gapProof : PSet HTerm :=
   Trie.prove freeAlg false false (some exTree) [true, true, false] ++
